@@ -178,11 +178,74 @@ class BuildCheckpointState(BuildCheckpointStateModel):
         return []
 
 
+def run_state_attributes(front, cls):
+    """Frame of one run, computed from the ast: the attributes of `self` that carry a value from one iteration of SMCSampler.sample to a later
+    one.  T = every method reachable from <cls>.sample through self.m(...), super().m(...) and properties, without the `sample` entry methods
+    themselves; an attribute is *written during the run* if a method of T assigns it or an entry method assigns it inside a loop, and it is run
+    state if some method of T or an entry method also reads it without having unconditionally assigned it first in the same method (AugAssign and
+    write-only bookkeeping such as counters or the last checkpoint are not read).  Returns {attr: (writers, readers)}."""
+    seen, todo = {}, [("sample", None)]
+    while todo:
+        m, after = todo.pop()
+        info = front.find_method(cls, m, after=after) or (front.find_property(cls, m) if after is None else None)
+        if info is None:
+            continue
+        key = f"{info.cls}.{info.node.name}"
+        if key in seen:
+            continue
+        seen[key] = info
+        for x in ast.walk(info.node):
+            if isinstance(x, ast.Call) and isinstance(x.func, ast.Attribute):
+                v = x.func.value
+                if isinstance(v, ast.Name) and v.id == "self":
+                    todo.append((x.func.attr, None))
+                elif isinstance(v, ast.Call) and isinstance(v.func, ast.Name) and v.func.id == "super":
+                    todo.append((x.func.attr, info.cls))
+            if isinstance(x, ast.Attribute) and isinstance(x.value, ast.Name) and x.value.id == "self" and isinstance(x.ctx, ast.Load):
+                todo.append((x.attr, None))
+
+    def accesses(node):
+        """(attr, 'store'|'load', lineno, inside_loop, top_level) for every access to self.<attr> in a method body"""
+        out = []
+
+        def rec(n, in_loop, top):
+            for ch in ast.iter_child_nodes(n):
+                if isinstance(ch, (ast.FunctionDef, ast.AsyncFunctionDef, ast.Lambda)) and ch is not node:
+                    rec(ch, in_loop, False)
+                    continue
+                loop = in_loop or isinstance(ch, (ast.While, ast.For, ast.ListComp, ast.DictComp, ast.SetComp, ast.GeneratorExp))
+                is_top = top and n is node and isinstance(ch, (ast.Assign, ast.AnnAssign))
+                if isinstance(ch, ast.Attribute) and isinstance(ch.value, ast.Name) and ch.value.id == "self":
+                    out.append((ch.attr, "store" if isinstance(ch.ctx, ast.Store) else "load", ch.lineno, in_loop, top))
+                if isinstance(ch, ast.Call) and isinstance(ch.func, ast.Name) and ch.func.id in ("getattr", "hasattr", "setattr") and len(ch.args) >= 2 \
+                        and isinstance(ch.args[0], ast.Name) and ch.args[0].id == "self" and isinstance(ch.args[1], ast.Constant):
+                    out.append((ch.args[1].value, "store" if ch.func.id == "setattr" else "load", ch.lineno, in_loop, top))
+                rec(ch, loop, is_top if isinstance(ch, (ast.Assign, ast.AnnAssign)) else (top and not isinstance(ch, ast.stmt)))
+        rec(node, False, True)
+        return out
+    writers, readers = {}, {}
+    for key, info in seen.items():
+        entry = info.node.name == "sample"
+        acc = accesses(info.node)
+        first_top_store = {}
+        for a, kind, ln, in_loop, top in acc:
+            if kind == "store" and top and not in_loop:
+                first_top_store[a] = min(ln, first_top_store.get(a, ln))
+        for a, kind, ln, in_loop, top in acc:
+            if kind == "store" and (not entry or in_loop):
+                writers.setdefault(a, set()).add(key)
+            if kind == "load" and not (a in first_top_store and first_top_store[a] < ln):
+                readers.setdefault(a, set()).add(key)
+    return {a: (sorted(writers[a]), sorted(readers[a])) for a in writers if a in readers}, sorted(seen)
+
+
 class SubclassFrames(Contract):
-    """attributes written on `self` by each kernel class's mutate() must be restorable from the payload"""
+    """attributes written on `self` during a run (by the loop of SMCSampler.sample and every method it reaches, for each kernel class) and read
+    again later in the run must be restorable from the payload"""
     qual = f"{M}:SMCSampler._checkpoint_extra_state"
     properties = ("C11",)
-    doc = "every attribute of the sampler that a kernel class's mutate() assigns is part of the checkpoint's extra state"
+    doc = ("every attribute of the sampler that carries a value from one iteration of the run to a later one (assigned by a method reachable from "
+           "sample(), or inside its loop, and read again) is part of the checkpoint payload, for each kernel class")
 
     def shapes(self):
         return [{"cls": c} for c in ("MiniPCNSMC", "EmceeSMC", "BlackJAXSMC")]
@@ -198,17 +261,16 @@ class SubclassFrames(Contract):
         p, g = I.path, pre.ghost
         q = self.qual
         cls = g["shape"]["cls"]
-        mut = I.front.find_method(cls, "mutate")
-        written = set()
-        for x in ast.walk(mut.node):
-            if isinstance(x, ast.Attribute) and isinstance(x.ctx, ast.Store) and isinstance(x.value, ast.Name) and x.value.id == "self":
-                written.add(x.attr)
+        state, methods = run_state_attributes(I.front, cls)
         covered = {"history": "history", "rng": "rng_state", "_min_step": "min_step", "sampler_kwargs": "sampler_kwargs"}
-        for a in sorted(written):
+        for a in sorted(state):
             key = covered.get(a)
+            w = state[a][0]
+            by = next((m for m in w if m.endswith(".mutate")), w[0])
             p.prove(z3.BoolVal(isinstance(d, PyDict) and key is not None and key in d.d),
-                    f"{q}:C11:attribute self.{a} written by {cls}.mutate is part of the checkpoint payload")
-        p.prove(z3.BoolVal(True), f"{q}:C11:{cls}: {len(written)} attribute(s) written by mutate examined")
+                    f"{q}:C11:attribute self.{a} written by {by} is part of the checkpoint payload")
+        p.prove(z3.BoolVal(len(methods) >= 8 and {"history", "_min_step"} <= set(state)),
+                f"{q}:C11:{cls}: the run's methods were found from the ast ({len(methods)} methods, {len(state)} attribute(s) of run state examined)")
 
 
 class RestoreFromCheckpoint(RestoreFromCheckpointModel):
@@ -236,7 +298,12 @@ class RestoreFromCheckpoint(RestoreFromCheckpointModel):
         # ---- a fresh sampler (same arguments) that resumes
         rng2 = I.reg.mk_rng(z3.Const("resumed_rng", Misc), True)
         s2 = Obj("SMCSampler", {"history": NONE, "rng": rng2, "xp": Sym(z3.Const("sampler_xp", Misc), "ns"), "dtype": Sym(z3.Const("sampler_dtype", Misc), "dtype"),
-                                "_min_step": NONE, "n_likelihood_evaluations": IV(z3.Int("evals_of_resuming_sampler"))})
+                                "_min_step": NONE, "n_likelihood_evaluations": IV(z3.Int("evals_of_resuming_sampler")),
+                                # what the caller of the resumed run configured: kernel settings (incl. the step count of the final mutation) and schedule options
+                                "sampler_kwargs": PyDict({"n_steps": IV(z3.Int("resumed_n_steps")), "n_final_steps": IV(z3.Int("resumed_n_final_steps"))}),
+                                "prior_flow": Sym(z3.Const("resumed_prior_flow", Misc), "flow"), "log_likelihood": Fn(lambda *x: NONE, "resumed_L"),
+                                "preconditioning_transform": Sym(z3.Const("resumed_preconditioning", Misc), "transform")})
+        frame0 = {k: (v, dict(v.d) if isinstance(v, PyDict) else None) for k, v in s2.f.items() if k not in ("history", "_min_step")}
         route = shape["route"]
         if route == "dict":
             src = state
@@ -263,7 +330,7 @@ class RestoreFromCheckpoint(RestoreFromCheckpointModel):
                 return _o(I2, a, k, n)
             I.reg.handlers["AspireFile.__new__"] = open_pre
             p.ghost["restore_open"] = orig_open
-        return Pre(s2, [src], ghost={"prod": g0, "state": state, "s2": s2, "rng2": rng2, "route": route})
+        return Pre(s2, [src], ghost={"prod": g0, "state": state, "s2": s2, "rng2": rng2, "route": route, "frame0": frame0})
 
     def post(self, I, pre, r):
         p, g = I.path, pre.ghost
@@ -295,6 +362,14 @@ class RestoreFromCheckpoint(RestoreFromCheckpointModel):
         ev = s2.f.get("n_likelihood_evaluations")
         p.prove(to_int(ev) == z3.Int("evals_of_resuming_sampler") if isinstance(ev, Z) else z3.BoolVal(False),
                 f"{q}:C17:restoring a checkpoint leaves the likelihood-evaluation counter of the resuming sampler untouched {tag}")
+        # frame: restore assigns the history, the adaptive minimum step and the generator's state; everything the caller configured on the resuming
+        # sampler for *this* run (kernel settings with the step count of the final mutation, proposal, callables, preconditioning) is left alone
+        for k, (v0, d0) in g["frame0"].items():
+            if k == "n_likelihood_evaluations":
+                continue
+            v1 = s2.f.get(k)
+            same = v1 is v0 and (d0 is None or (set(v1.d) == set(d0) and all(v1.d[kk] is d0[kk] for kk in d0)))
+            p.prove(z3.BoolVal(same), f"{q}:C11:restoring leaves `{k}` of the resuming sampler as the caller configured it (restore assigns history, minimum step and generator state only) {tag}")
         if route == "dict" and ok:
             # the caller's checkpoint dictionary is a record: the resumed run appends to its own copy of the history, never to the dictionary's
             src_h = g["state"].d.get("history") if isinstance(g["state"], PyDict) else None
